@@ -279,9 +279,90 @@ func runC20(c *core.Ctx, o Options) {
 	if s := newSess(c); s != nil {
 		checkFreshMessages(c, s, "fresh-message")
 	}
+	// message-lock: the handler's send path touches the message object (outgoing handlers, which store it; ToBytes, which
+	// rewrites its length, checksum and image) only with DefaultHandler.mu held — the resend path serializes stored objects under
+	// the same mutex, so a window outside it lets a retransmission and the first transmission write one object at once.
+	if hmu := c.Field("", "DefaultHandler", "mu"); c.Anchor("handler mutex", hmu != nil, "DefaultHandler.mu", token.NoPos) {
+		n := 0
+		for _, fn := range pkgFuncs(c.SSAPkg("")) {
+			if fn.Signature.Recv() == nil || !an.TypeIs(fn.Signature.Recv().Type(), "simplefix-go", "DefaultHandler") {
+				continue
+			}
+			an.AllInstrs(fn, func(in ssa.Instruction) {
+				call, ok := in.(*ssa.Call)
+				if !ok {
+					return
+				}
+				what := ""
+				if call.Call.IsInvoke() && call.Call.Method.Name() == "ToBytes" && an.TypeIs(call.Call.Value.Type(), "simplefix-go", "SendingMessage") {
+					what = "serializes the outgoing message (ToBytes rewrites it)"
+				}
+				if cal := an.StaticCallee(&call.Call); cal != nil && an.FuncIs(cal, "simplefix-go", "OutgoingHandlerPool.Range") {
+					what = "runs the outgoing handlers on the message"
+				}
+				if what == "" {
+					return
+				}
+				n++
+				ls := la.At[call]
+				c.Check(ls.Holds(hmu, "h", an.ModeW), "message-lock", fn.Name(), what+" under DefaultHandler.mu", call.Pos(), "held: "+ls.String(),
+					fn.Name()+" "+what+" without DefaultHandler.mu (lockset "+ls.String()+"): a ResendRequest served meanwhile serializes the same stored object under that mutex — two goroutines write one message")
+			})
+		}
+		c.Check(n >= 3, "message-lock", "", "message operations on the handler's send path found", token.NoPos, fmt.Sprint(n), fmt.Sprintf("only %d found (two Range calls and ToBytes in send were confirmed)", n))
+	}
+	// captured-variable: a local variable shared with a callback that another goroutine runs (event handler, AfterFunc, go,
+	// registered message handler) is assigned only before the callback is created; a later assignment in the creating function
+	// is an unsynchronised write to memory the callback reads.
+	nCap := 0
+	for _, fn := range fns {
+		an.AllInstrs(fn, func(in ssa.Instruction) {
+			mc, ok := in.(*ssa.MakeClosure)
+			if !ok || !closureEscapesToOtherGoroutine(mc) {
+				return
+			}
+			for i, b := range mc.Bindings {
+				cell, isCell := b.(*ssa.Alloc)
+				if !isCell {
+					continue
+				}
+				nCap++
+				fv := mc.Fn.(*ssa.Function).FreeVars[i]
+				// does the closure read the variable?
+				reads := false
+				for _, f2 := range an.WithAnon(mc.Fn.(*ssa.Function)) {
+					for _, v := range f2.FreeVars {
+						if an.FreeVarBinding(v) == ssa.Value(cell) || v == fv {
+							for _, ref := range *v.Referrers() {
+								if u, isU := ref.(*ssa.UnOp); isU && u.Op == token.MUL {
+									reads = true
+								}
+							}
+						}
+					}
+				}
+				if !reads {
+					continue
+				}
+				late := ""
+				for _, ref := range *cell.Referrers() {
+					st, isSt := ref.(*ssa.Store)
+					if !isSt || st.Addr != ssa.Value(cell) {
+						continue
+					}
+					if an.Reaches(mc, st) {
+						late = c.RelPos(st.Pos())
+					}
+				}
+				c.Check(late == "", "captured-variable", fn.Name(), "variable "+cell.Comment+" shared with "+mc.Fn.Name()+" is assigned before that callback exists", mc.Pos(), "all assignments precede the function literal",
+					"variable "+cell.Comment+" is read by "+mc.Fn.Name()+", which another goroutine runs, and is assigned afterwards at "+late+" without synchronisation")
+			}
+		})
+	}
+	c.Extra["captured_cells"] = nCap
 	c.Extra["functions"] = len(fns)
 	c.Extra["guarded_accesses"] = nAcc
-	c.RuleMin = map[string]int{"atomic": 7, "complete": 6, "fresh-message": 3, "lockset": 31}
+	c.RuleMin = map[string]int{"atomic": 7, "complete": 6, "fresh-message": 3, "lockset": 31, "message-lock": 4}
 	c.MinObl = 30
 }
 
@@ -363,4 +444,47 @@ func checkFreshMessages(c *core.Ctx, s *sess, rule string) {
 		})
 	}
 	c.Check(nFresh >= 2, rule, "", "sends inside loops found", token.NoPos, fmt.Sprint(nFresh), "fewer looped sends than the two timer goroutines")
+}
+
+// closureEscapesToOtherGoroutine: the function literal is spawned with go, handed to time.AfterFunc, or registered as an event
+// or message handler (those run on the handler's dispatch goroutine or a timer goroutine, not on the goroutine that creates them).
+func closureEscapesToOtherGoroutine(mc *ssa.MakeClosure) bool {
+	if mc.Referrers() == nil {
+		return false
+	}
+	for _, ref := range *mc.Referrers() {
+		var cc *ssa.CallCommon
+		switch x := ref.(type) {
+		case *ssa.Go:
+			return true
+		case *ssa.Call:
+			cc = &x.Call
+		case *ssa.MakeInterface, *ssa.ChangeType:
+			// converted to a named func type before being passed on
+			if v, ok := ref.(ssa.Value); ok && v.Referrers() != nil {
+				for _, r2 := range *v.Referrers() {
+					if call, isCall := r2.(*ssa.Call); isCall {
+						cc = &call.Call
+					}
+				}
+			}
+		}
+		if cc == nil {
+			continue
+		}
+		name := ""
+		if cc.IsInvoke() {
+			name = cc.Method.Name()
+		} else if cal := an.StaticCallee(cc); cal != nil {
+			name = cal.Name()
+			if cal.Pkg != nil && cal.Pkg.Pkg.Path() == "time" && name == "AfterFunc" {
+				return true
+			}
+		}
+		switch name {
+		case "OnChangeState", "Handle", "HandleIncoming", "HandleOutgoing", "OnDisconnect", "OnConnect", "OnStopped":
+			return true
+		}
+	}
+	return false
 }
